@@ -352,8 +352,9 @@ def r6_pairwise_matrix_and_inputs(ctx):
     ctx.floor("interval functions examined for writes into their arguments", n, 40)
 
 
-from ..through_time import make_rule as _mk_tt
+from ..through_time import make_rule as _mk_tt, make_t2 as _mk_t2
 _through_time = _mk_tt("C08")
+_small_edits = _mk_t2("C08")
 
 def _synchronised_streams(ctx):
     from .c12 import r2_every_contig_gets_a_buffer
@@ -367,5 +368,6 @@ RULES = [
     ("C08-R5", r5_similarity),
     ("C08-R6", r6_pairwise_matrix_and_inputs),
     ("C08-T1", _through_time),
+    ("C08-T2", _small_edits),
     ("C08-R7", _synchronised_streams),
 ]
